@@ -442,6 +442,16 @@ def check_C13(ctx):
         if arbitrary:
             rng.shuffle(order)
         allnames = sorted(order)
+        if k % 3 == 2:
+            # padding variables between the blocks: the pairs then sit at levels up to 12
+            pads = [[f'pad{i}'] for i in range(rng.randint(4, 7))]
+            if arbitrary:
+                order = order + [p[0] for p in pads]
+                rng.shuffle(order)
+            else:
+                blocks2 = blocks + pads
+                rng.shuffle(blocks2)
+                order = [n for blk in blocks2 for n in blk]
         spk = Space(allnames)
         s = fresh(ctx, order)
         bld = Builder(s)
